@@ -18,16 +18,21 @@ def run(ctx):
     T = 240 if ctx.quick() else 1200
     jobs = []
     N = 2 if ctx.quick() else 3
-    for lang in (("Python", "JavaScript") if ctx.quick() else capture.LANG_NAMES):
+    for lang in (("Python", "JavaScript", "Java", "C") if ctx.quick() else capture.LANG_NAMES):
         r = xh.call("soup.py", "_alphabet", {"lang": lang}, wall_timeout=120)
         alpha = [w for _t, w in r.get("value", [])]
-        for k in range(len(alpha)):
-            jobs.append(Job("c06.py", "h_isolation", {"which": "isolation", "lang": lang, "N": N, "first": k}, T, 60, tag=f"isolation {lang} N={N} first={alpha[k]!r}", meta={"twin": alpha[k] == "x", "sigtag": f"isolation:{lang}"}))
+        # concrete-after-selection and untraced, so one condition per language covers all first tokens
+        jobs.append(Job("c06.py", "h_isolation", {"which": "isolation", "lang": lang, "N": N, "first": None}, T * 2, 60, tag=f"isolation {lang} N={N}", meta={"twin": True, "sigtag": f"isolation:{lang}"}))
+        jobs.append(Job("c06.py", "h_first_file", {"which": "isolation", "lang": lang, "N": N, "first": None}, T * 2, 60, tag=f"soup analysed first in the process {lang} N={N}", meta={"twin": False, "sigtag": f"first-file:{lang}"}))
     for lang in capture.LANG_NAMES:
         r = xh.call("c15.py", "n_automata", {"lang": lang}, wall_timeout=120)
         for i, a in enumerate(r.get("value", [])):
             jobs.append(Job("c06.py", "h_consume_order", {"which": "consume", "lang": lang, "automaton": i}, T, 60, tag=f"transition order {lang} pair{a['pair']}.{a['part']}", meta={"twin": lang == "JavaScript" and a["part"] == "header" and a["pair"] == 1, "sigtag": f"order:{lang}"}))
     jobs.append(Job("c06.py", "h_add_order", {"which": "add"}, T, 30, tag="insertion order, 3 files"))
+    # the same code tokens analysed twice in one process in different layouts (baseline scan, then re-laid-out scan with a marker comment): C17's harness, run here for its isolation aspect
+    for lang in ("JavaScript", "TypeScript", "Python", "C", "Java"):
+        for label in ("two", "three-global"):
+            jobs.append(Job("skel_h.py", "h_nocl", {"lang": lang, "tier": "quick", "label": label, "mode": "nocl"}, T, 40, tag=f"same tokens, other layout {lang}/{label}", meta={"twin": False, "sigtag": "relayout"}))
     # S-hash at scan_file level: every single-edit mutant of programs that exercise patterns with several live transitions, identity vs permuted transition order
     from vlib import skel
     for lang in capture.LANG_NAMES:
@@ -46,6 +51,6 @@ def run(ctx):
     for c in ((0, 2) if ctx.quick() else (0, 1, 2, 3)):
         for f3 in ((0, 2) if ctx.quick() else (0, 2, 5, 7)):
             jobs.append(Job("c11.py", "h_walk_order", {"cfg": c, "fix_f3": f3}, T, 60, tag=f"traversal order cfg{c} file#{f3}", meta={"sigtag": "walk-order", "twin": f3 == 0 and c == 0}))
-    ctx.bounds = {"isolation": f"intervening file = every token soup of length {N} (all layouts) per language; B = two canonical programs", "transition order": "every state of every captured automaton x every permutation of its <= 4 transitions x every token kind x unbounded value/depth",
+    ctx.bounds = {"isolation": f"intervening / first file = every token soup of length {N} over the language alphabet in a small layout pool (same or next line, two columns); B = two canonical programs whose results must equal the generator's ground truth", "transition order": "every state of every captured automaton x every permutation of its <= 4 transitions x every token kind x unbounded value/depth",
                   "insertion order": "all 6 permutations of 3 files, values unbounded", "traversal order": "sorted vs reversed / rotated sibling order over the C11 tree family"}
     ctx.run_xh(jobs)
